@@ -72,6 +72,12 @@ def options_record_roundtrip(H, cname):
     H.call(m2.load_options, ch)
     for name, o in cls.options.items():
         H.check(f"restored[{name}]", H.eq(m2.option_values[name], stored[name]))
+    # the values belong to the instance: constructing another module of the class (which applies
+    # the defaults to ITS options) leaves both records as they are
+    H.call(cls)
+    for name, o in cls.options.items():
+        H.check(f"kept_while_another_instance_is_built[{name}]",
+                H.and_(H.eq(m.option_values[name], stored[name]), H.eq(m2.option_values[name], stored[name])))
     H.cover("reached")
 
 
